@@ -1195,6 +1195,34 @@ impl<K, V, S> HashMap<K, V, S> {
     }
 }
 
+#[cfg(feature = "verif-hooks")]
+pub use crate::raw::{VerifLoc, VerifState};
+
+#[cfg(feature = "verif-hooks")]
+impl<K, V, S> HashMap<K, V, S> {
+    /// Read-only snapshot of the resize state (verification hook).
+    pub fn verif_state(&self) -> VerifState {
+        self.table.verif_state()
+    }
+}
+
+#[cfg(feature = "verif-hooks")]
+impl<K, V, S> HashMap<K, V, S>
+where
+    K: Eq + Hash,
+    S: BuildHasher,
+{
+    /// Which backing table `k` currently lives in (verification hook).
+    pub fn verif_locate<Q: ?Sized>(&self, k: &Q) -> VerifLoc
+    where
+        K: Borrow<Q>,
+        Q: Hash + Eq,
+    {
+        let hash = make_hash::<K, Q, S>(&self.hash_builder, k);
+        self.table.verif_locate(hash, equivalent_key(k))
+    }
+}
+
 impl<K, V, S> PartialEq for HashMap<K, V, S>
 where
     K: Eq + Hash,
